@@ -7,6 +7,10 @@ import (
 type Options struct {
 	PreemptBound int
 	FaultBound   int
+	// FreeBound bounds non-default choices at forced switches (running thread blocked or finished);
+	// 0 means unlimited (the classic preemption-bounded search). A positive bound makes the search
+	// tractable when many daemon threads are runnable at every blocking point.
+	FreeBound int
 	MaxSteps     int
 	MaxExecs     int // 0 = unlimited
 	Shard        int // this worker
@@ -28,6 +32,11 @@ type Stats struct {
 }
 
 func costs(points []PointInfo, upto int) (pre, flt int) {
+	pre, flt, _ = costs3(points, upto)
+	return
+}
+
+func costs3(points []PointInfo, upto int) (pre, flt, free int) {
 	for i := 0; i < upto; i++ {
 		if points[i].Chosen != 0 {
 			switch points[i].Class {
@@ -35,6 +44,8 @@ func costs(points []PointInfo, upto int) (pre, flt int) {
 				pre++
 			case Fault:
 				flt++
+			case Free:
+				free++
 			}
 		}
 	}
@@ -82,8 +93,12 @@ func Explore(opt Options, body func(s *S) any, check func(x *Exec)) Stats {
 				st.Horizons++
 				st.Exhaustive = false
 			}
-			p, f := costs(x.Points, len(x.Points))
-			st.ByCost[fmt.Sprintf("preempt=%d,fault=%d", p, f)]++
+			p, f, fr := costs3(x.Points, len(x.Points))
+			if opt.FreeBound > 0 {
+				st.ByCost[fmt.Sprintf("preempt=%d,fault=%d,free-switch=%d", p, f, fr)]++
+			} else {
+				st.ByCost[fmt.Sprintf("preempt=%d,fault=%d", p, f)]++
+			}
 			check(x)
 		} else {
 			st.Redundant++
@@ -92,14 +107,16 @@ func Explore(opt Options, body func(s *S) any, check func(x *Exec)) Stats {
 		var kids []item
 		for i := len(it.prefix); i < len(x.Points); i++ {
 			pi := x.Points[i]
-			pre, flt := costs(x.Points, i)
+			pre, flt, free := costs3(x.Points, i)
 			switch pi.Class {
 			case Preempt:
 				pre++
 			case Fault:
 				flt++
+			case Free:
+				free++
 			}
-			if pre > opt.PreemptBound || flt > opt.FaultBound {
+			if pre > opt.PreemptBound || flt > opt.FaultBound || (opt.FreeBound > 0 && free > opt.FreeBound) {
 				continue
 			}
 			for alt := 1; alt < pi.N; alt++ {
